@@ -150,7 +150,8 @@ func genOGMHistory(r *rand.Rand, st *ogmStats, hid int, allowTimeout bool) strin
 		x := r.Intn(100)
 		switch {
 		case x < 22 || len(current) == 0 && x < 60:
-			gc += 1 + r.Intn(2)
+			// the same count again now and then: a hand that could not be opened is announced once more
+			gc += r.Intn(3)
 			n := r.Intn(8)
 			if r.Intn(10) == 0 {
 				n = 0
